@@ -17,6 +17,13 @@ SVH_CMD(explain) {
         out << "ERROR";
         for (const auto &t : e.dem_error_terms) out << " " << t.dem_target.str();
         out << "\n";
+        // coordinates attached to the error's detectors
+        out << "ECOORDS";
+        for (const auto &t : e.dem_error_terms) {
+            out << " " << t.dem_target.str() << "@";
+            for (size_t k = 0; k < t.coords.size(); k++) out << (k ? "," : "") << t.coords[k];
+        }
+        out << "\n";
         for (const auto &loc : e.circuit_error_locations) {
             out << "LOC tick=" << loc.tick_offset << " frames=";
             for (size_t k = 0; k < loc.stack_frames.size(); k++) {
@@ -28,11 +35,42 @@ SVH_CMD(explain) {
                 const auto &t = loc.flipped_pauli_product[k].gate_target;
                 out << (k ? "," : "") << t.qubit_value() << ":" << t.pauli_type();
             }
+            out << " pcoords=";
+            for (size_t k = 0; k < loc.flipped_pauli_product.size(); k++) {
+                const auto &t = loc.flipped_pauli_product[k];
+                out << (k ? ";" : "") << t.gate_target.qubit_value() << "@";
+                for (size_t j = 0; j < t.coords.size(); j++) out << (j ? "," : "") << t.coords[j];
+            }
+            out << " tcoords=";
+            for (size_t k = 0; k < loc.instruction_targets.targets_in_range.size(); k++) {
+                const auto &t = loc.instruction_targets.targets_in_range[k];
+                out << (k ? ";" : "");
+                if (t.gate_target.has_qubit_value()) out << t.gate_target.qubit_value();
+                out << "@";
+                for (size_t j = 0; j < t.coords.size(); j++) out << (j ? "," : "") << t.coords[j];
+            }
             out << " meas=";
             if (loc.flipped_measurement.measurement_record_index == UINT64_MAX) out << "-";
             else out << loc.flipped_measurement.measurement_record_index;
             out << " gate=" << GATE_DATA[loc.instruction_targets.gate_type].name << " range=" << loc.instruction_targets.target_range_start
                 << ":" << loc.instruction_targets.target_range_end << "\n";
+        }
+    }
+    // the reference values: final qubit coordinates and detector coordinates of the circuit (tied to the unrolled program by C15)
+    out.precision(17);
+    for (const auto &kv : c.get_final_qubit_coords()) {
+        out << "QC " << kv.first << " ";
+        for (size_t j = 0; j < kv.second.size(); j++) out << (j ? "," : "") << kv.second[j];
+        out << "\n";
+    }
+    {
+        std::set<uint64_t> all;
+        uint64_t nd = c.count_detectors();
+        for (uint64_t k = 0; k < nd && k < 2000; k++) all.insert(k);
+        for (const auto &kv : c.get_detector_coordinates(all)) {
+            out << "DC " << kv.first << " ";
+            for (size_t j = 0; j < kv.second.size(); j++) out << (j ? "," : "") << kv.second[j];
+            out << "\n";
         }
     }
     if (use_filter) {
